@@ -50,6 +50,11 @@ def ij_arcs(quick):
                 for m in range(1, 25):
                     for cw in (True, False):
                         yield (sx, sy, rad, a0, m, cw)
+                if rad >= 50 and k % 3 == 0:
+                    # gently curved walls: sweeps of a few hundredths of a radian (m is in twelfths of pi)
+                    for sw in (0.01, 0.02, 0.05):
+                        for cw in (True, False):
+                            yield (sx, sy, rad, a0, sw * 12 / math.pi, cw)
 
 
 def arc_geometry(sx, sy, rad, a0, m, cw, aligned=False):
